@@ -225,3 +225,275 @@ Proof.
     + vm_compute. exact I.
     + exists [], 9%nat, []. split; [vm_compute; repeat constructor|]. split; [reflexivity|]. vm_compute. reflexivity.
 Qed.
+
+(* ------------------------------------------------------------------------------------------------------------
+   The manifest record codec.  Codec/SessionRecord.v models leveldb/session_record.go (sessionRecord, its
+   setters and resets, encode, decode with binary.ReadUvarint byte for byte) and the replay half of
+   session.recover (leveldb/session.go) with versionStaging (leveldb/version.go).  The tag numbers are the
+   generated constants (Gen/InstRecord.v: rp, side condition rp_ok re-proved on every run); the theorems hold
+   for every tag assignment with rparams_ok.  Go int / int64 are 64 bits.  The decoder is the REPAIRED one
+   (repo commit "fix: sessionRecord.decode must validate lengths and levels read from the manifest"); the pinned
+   one is decode_old, kept for C04_record_decode_total_refuted.                                                *)
+From GL Require Import Codec.SessionRecord Codec.SessionRecordSpec Codec.SessionRecordProofs
+  Codec.SessionRecordCutProofs Codec.SessionRecordBuildProofs Store.ManifestReplayProofs Gen.InstRecordOk.
+
+(* decode . encode = id.  For EVERY record whose written fields are in range — comparer name and keys any byte
+   strings (a Go length: below 2^64), journal / next-file numbers, table numbers and sizes int64s in [0, 2^63)
+   (encode panics below 0: putVarint), levels ints in [0, 2^63), the sequence number any uint64 — whatever its
+   hasRec bits and its other fields are: encode does not panic, and decoding its bytes into ANY record state r0
+   (session.recover reuses one record) stores exactly the written fields into r0, in encode's order: comparer,
+   journal-num, next-file-num, seq-num when their bits are set, every compaction pointer, every deleted table,
+   every added table.  The previous journal number is never written (encode has no case for it): a record with
+   that bit set does not read back with it. *)
+Theorem C04_record_roundtrip : forall p, rparams_ok p -> forall r, rec_ok p r ->
+  exists b, encode p r = Some b /\ forall r0, decode p r0 b = DOk (apply_items p r0 (items_of p r)).
+Proof. exact record_roundtrip. Qed.
+Print Assumptions C04_record_roundtrip.
+
+(* the same for the records the setters build from field values (every combination of the four written scalar
+   fields, any three lists): the decoded record IS the encoded one *)
+Theorem C04_record_roundtrip_built : forall p, rparams_ok p -> forall f, fields_ok f ->
+  exists b, encode p (build p f) = Some b /\ decode p sr_empty b = DOk (build p f).
+Proof. exact build_roundtrip. Qed.
+Print Assumptions C04_record_roundtrip_built.
+
+(* On ARBITRARY bytes, from any record state: decode returns a record or an ErrCorrupted naming a field and
+   one of "short read" / varint overflow / "invalid negative value" / "invalid level".  It never panics, never
+   returns a bare io.EOF, and len+1 rounds of its loop always suffice (every round consumes a byte). *)
+Theorem C04_record_decode_total : forall p r b,
+  match decode p r b with
+  | DOk _ => True
+  | DErr e _ => exists f why, e = ECorrupt f why
+  | DPanic | DFuel => False
+  end.
+Proof. exact decode_total. Qed.
+Print Assumptions C04_record_decode_total.
+
+(* ... and nothing is taken from an unchecked length: a byte string a reader returns (the only allocation,
+   make([]byte, n)) together with what is left is never longer than what the reader was given; a level it
+   returns is a non-negative int (it is used as a slice index by versionStaging and setCompPtr), a number a
+   non-negative int64. *)
+Theorem C04_record_readers_bounded :
+  (forall f buf x rest, read_bytes f buf = ROk x rest -> (length x + length rest <= length buf)%nat) /\
+  (forall f buf l rest, read_level f buf = ROk l rest -> (0 <= l)%Z) /\
+  (forall f buf z rest, read_varint f buf = ROk z rest -> (0 <= z)%Z).
+Proof. exact (conj read_bytes_bounded (conj read_level_range read_varint_range)). Qed.
+Print Assumptions C04_record_readers_bounded.
+
+(* The statement is FALSE for the pinned decoder (readBytes: make([]byte, n) before looking at what is left,
+   io.EOF of io.ReadFull not converted; readLevel: int(x) unchecked).  Witnesses, each reproduced on the real
+   code through leveldb.Open on a storage holding a MANIFEST with this record (harness/cmd/c04/krecord.go keeps
+   them as directed cases for the repaired tree):
+   - 01 ff ff ff ff ff ff ff ff 7f   comparer length 2^63-1: panic "makeslice: len out of range";
+   - 01 05                           a length followed by nothing: the bare io.EOF, not an ErrCorrupted — Open
+                                     fails with "EOF" even without StrictManifest;
+   - 06 80..80 01 07                 deleted table at level 2^63: decodes to level -2^63, versionStaging.commit
+                                     panics "index out of range [-9223372036854775808]";
+   - 05 ff..ff 01 00                 compaction pointer at level 2^64-1: decodes to level -1, setCompPtr panics.
+   The repaired decoder reports all four as corrupted. *)
+Definition ex_huge_len : bytes := [1; 255; 255; 255; 255; 255; 255; 255; 255; 127].
+Definition ex_len_then_eof : bytes := [1; 5].
+Definition ex_del_level_2_63 : bytes := [6; 128; 128; 128; 128; 128; 128; 128; 128; 128; 1; 7].
+Definition ex_cp_level_minus1 : bytes := [5; 255; 255; 255; 255; 255; 255; 255; 255; 255; 1; 0].
+Theorem C04_record_decode_total_refuted :
+  decode_old rp go_max_alloc sr_empty ex_huge_len = DPanic /\
+  decode_old rp go_max_alloc sr_empty ex_len_then_eof = DErr EEOF sr_empty /\
+  (exists r, decode_old rp go_max_alloc sr_empty ex_del_level_2_63 = DOk r /\ commit [] [] r = PPanic) /\
+  (exists r, decode_old rp go_max_alloc sr_empty ex_cp_level_minus1 = DOk r /\ pfold set_comp_ptr (sr_cps r) [] = PPanic) /\
+  decode rp sr_empty ex_huge_len = DErr (ECorrupt FComparer RShort) sr_empty /\
+  decode rp sr_empty ex_len_then_eof = DErr (ECorrupt FComparer RShort) sr_empty /\
+  decode rp sr_empty ex_del_level_2_63 = DErr (ECorrupt FDelLevel RLevel) sr_empty /\
+  decode rp sr_empty ex_cp_level_minus1 = DErr (ECorrupt FCpLevel RLevel) sr_empty.
+Proof.
+  split; [vm_compute; reflexivity|]. split; [vm_compute; reflexivity|].
+  split; [eexists; split; vm_compute; reflexivity|]. split; [eexists; split; vm_compute; reflexivity|].
+  repeat split; vm_compute; reflexivity.
+Qed.
+Print Assumptions C04_record_decode_total_refuted.
+
+(* A strict prefix of a valid encoding (what a torn record is when it is handed to decode).  With the fields of
+   the record as encode writes them (items_of), cut_items says which of them lie wholly within the first n
+   bytes and whether the cut falls exactly between two fields: then decode SUCCEEDS with those fields — a
+   shorter record, not an error, because the encoding carries no field count or end mark — and otherwise it is
+   a corrupted "short read" (never overflow / negative / level) at a field of the cut item, the fields before it
+   already stored in the record.  In both cases the stored fields are a prefix of the record's.  (On the pinned
+   decoder a cut right after a key length was the bare io.EOF: C04_record_decode_total_refuted.)  This is why
+   session.recover must not decode a torn record at all: a clean cut behind journal-num / seq-num and before the
+   added table would be applied as a valid edit — the repair 061d458 reads the record completely first and
+   skips it when the journal reader reports it torn. *)
+Theorem C04_record_prefix : forall p, rparams_ok p -> forall r b, rec_ok p r -> encode p r = Some b ->
+  forall r0 n,
+  match cut_items p (items_of p r) n with
+  | (a, true) => decode p r0 (firstn n b) = DOk (apply_items p r0 a)
+  | (a, false) => exists fld, decode p r0 (firstn n b) = DErr (ECorrupt fld RShort) (apply_items p r0 a)
+  end.
+Proof. exact record_prefix. Qed.
+Print Assumptions C04_record_prefix.
+
+(* Decoding into the record session.recover reuses = decoding into a fresh record and laying the result over
+   the reused one (carry: bits or-ed, a scalar field replaced when its bit is set in the fresh record, the lists
+   appended); an error is the same error at the same field.  For arbitrary bytes. *)
+Theorem C04_record_decode_reused : forall p, rparams_ok p -> forall r0 b,
+  match decode p sr_empty b with
+  | DOk r => decode p r0 b = DOk (carry p r0 r)
+  | DErr e r => decode p r0 b = DErr e (carry p r0 r)
+  | _ => True
+  end.
+Proof. exact decode_carry. Qed.
+Print Assumptions C04_record_decode_reused.
+
+(* Replaying a manifest.  For EVERY list of records each of which decodes (on its own, to rs), strict or not,
+   the model of session.recover — one reused record whose lists are reset after every record, per-level scratch
+   maps (getScratch / commit: deletions of a record before its additions), setCompPtr, then the checks
+   "comparer missing / mismatch, next-file-num / journal-file-num / seq-num missing" in that order — agrees
+   with replay_result: the same failure, or the journal / previous-journal / next-file / sequence numbers set
+   LAST by any record, for every level exactly the tables of live_of rs at that level (a deletion removes
+   (level, number), an addition replaces (level, number)), for every level the compaction pointer set last.
+   The order of the tables inside a level (sortByNum / sortByKey) is C06's finish_level, not modelled here. *)
+Theorem C04_manifest_replay : forall p, rparams_ok p -> forall strict cmp recs rs,
+  Forall2 (fun b r => decode p sr_empty b = DOk r) recs rs ->
+  agrees (session_recover p strict cmp recs) (replay_result p cmp rs).
+Proof. exact manifest_replay. Qed.
+Print Assumptions C04_manifest_replay.
+
+(* ... and the numbers are those of the record-level model: when the replay succeeds, Store/Crash.v's replay_man
+   over the edits the records denote (medit_of: journal number, sequence number, and for every added table the
+   batches it newly makes durable — newb is that ghost labelling) yields the same journal and sequence numbers,
+   and the batches of all tables ever added, in order. *)
+Theorem C04_manifest_replay_is_replay_man : forall p newb cmp rs j pj nf q live cps,
+  replay_result p cmp rs = SpecOk j pj nf q live cps ->
+  replay_man (map (medit_of p newb) rs) 0 0 [] = (Z.to_N j, q, flat_map newb (flat_map sr_adds rs)).
+Proof. exact manifest_replay_abs. Qed.
+Print Assumptions C04_manifest_replay_is_replay_man.
+
+(* What is NOT excluded (known finding manifest-huge-level): a level up to 2^63-1 is accepted, and
+   versionStaging.getScratch then holds level+1 scratch slots (make([]tablesScratch, level+1)) — a damaged level
+   of 2^40 asks for 16 TiB. *)
+Theorem C04_replay_allocates_by_level : forall levels level lv,
+  grow_levels levels level = POk lv -> (Z.to_nat level < length lv)%nat.
+Proof.
+  intros levels level lv H. unfold grow_levels in H. destruct (level <? 0)%Z; [discriminate|].
+  injection H as <-. apply grown_length.
+Qed.
+Print Assumptions C04_replay_allocates_by_level.
+
+(* The abstract edit codec of C04_crash_safe_bytes, instantiated.  enc_medit writes an edit of Store/Crash.v as
+   the manifest record the setters build for it (journal number and sequence number when the edit sets them,
+   one added level-0 table per batch, named by the batch: file number = first sequence number, size = record
+   count) with sessionRecord.encode; dec_medit is sessionRecord.decode into a fresh record followed by the
+   abstraction medit_of.  The contract dec (enc e) = Some e holds for every edit whose numbers fit the Go
+   types: *)
+Theorem C04_edit_codec_roundtrip : forall p, rparams_ok p -> forall e, medit_ok e ->
+  dec_medit p (enc_medit p e) = Some e.
+Proof. exact medit_roundtrip. Qed.
+Print Assumptions C04_edit_codec_roundtrip.
+
+Theorem C04_edit_codec_ok : forall p, rparams_ok p -> forall enc_batch dec_batch s,
+  (forall b, In b (p_issued s) -> dec_batch (enc_batch b) = Some b) ->
+  Forall medit_ok (p_man s) ->
+  codecs_ok enc_batch dec_batch (enc_medit p) (dec_medit p) s.
+Proof. exact codecs_ok_medit. Qed.
+Print Assumptions C04_edit_codec_ok.
+
+(* C04_crash_safe_bytes with the manifest given as the bytes of real manifest records: no abstract pair for the
+   edits any more (the batch codec stays a pair with its contract: Codec/Batch.v is C01's). *)
+Theorem C04_crash_safe_bytes_concrete : forall crc jp, jparams_ok jp ->
+  forall enc_batch dec_batch ck ops b,
+  (forall x, In x (p_issued (prun ops)) -> dec_batch (enc_batch x) = Some x) ->
+  Forall medit_ok (p_man (prun ops)) ->
+  is_byte_image crc jp enc_batch (enc_medit rp) ck (prun ops) b ->
+  let r := recover_image_bytes crc jp dec_batch (dec_medit rp) ck (prun ops) b in
+  (forall x, In x (p_acked (prun ops)) -> In x r) /\
+  (forall x, In x r -> In x (p_issued (prun ops))) /\
+  sorted_b r.
+Proof. exact (crash_safe_bytes_concrete rp rp_ok). Qed.
+Print Assumptions C04_crash_safe_bytes_concrete.
+
+From Coq Require Import Lia.
+(* ---- non-vacuity, by computation with the generated tag numbers ---- *)
+(* a record with every written field, boundary numbers and an empty key *)
+Definition ex_fields : rfields :=
+  mkrf (Some [108; 101; 118]) (Some 9223372036854775807%Z) (Some 128%Z) (Some 18446744073709551615)
+       [mkcp 1%Z [1; 2; 3; 4; 5; 6; 7; 8; 9]]
+       [mkdt 0%Z 127%Z; mkdt 9223372036854775807%Z 4294967296%Z]
+       [mkat 2%Z 2147483648%Z 0%Z [] [97; 1; 0; 0; 0; 0; 0; 0; 0]].
+Example C04_record_nonvacuous :
+  rparams_ok rp /\ fields_ok ex_fields /\
+  (exists b, encode rp (build rp ex_fields) = Some b /\ length b = 78%nat /\
+             decode rp sr_empty b = DOk (build rp ex_fields) /\
+             (* cut between two fields: a shorter record; cut inside the added table: short read *)
+             decode rp sr_empty (firstn 5 b) = DOk (build rp (mkrf (Some [108; 101; 118]) None None None [] [] [])) /\
+             decode rp sr_empty (firstn 77 b) =
+               DErr (ECorrupt FAddImax RShort)
+                    (build rp (mkrf (f_comparer ex_fields) (f_journal ex_fields) (f_nextfile ex_fields) (f_seq ex_fields)
+                                    (f_cps ex_fields) (f_dels ex_fields) []))) /\
+  (* a negative number makes encode panic *)
+  encode rp (build rp (mkrf None (Some (-1)%Z) None None [] [] [])) = None /\
+  (* an unknown tag is skipped: 08 03 05 reads as next-file-num 5 *)
+  decode rp sr_empty [8; 3; 5] = DOk (build rp (mkrf None None (Some 5%Z) None [] [] [])).
+Proof.
+  split; [exact rp_ok|]. split.
+  - unfold fields_ok, items_of_fields, ex_fields.
+    cbn [oitem map app f_comparer f_journal f_nextfile f_seq f_cps f_dels f_adds].
+    repeat (constructor; [cbn [item_ok cp_level cp_ikey dt_level dt_num at_level at_num at_size at_imin at_imax];
+                          unfold z_in63, len_ok, sr_two63, sr_two64, lenN; cbn [length]; repeat split; lia|]).
+    constructor.
+  - split; [|split; vm_compute; reflexivity].
+    eexists. split; [vm_compute; reflexivity|]. repeat split; vm_compute; reflexivity.
+Qed.
+
+(* three manifest records as goleveldb writes them: the snapshot record of a new manifest, a flush (journal,
+   sequence number, one level-0 table), a compaction (two tables deleted, one added, a compaction pointer) *)
+Definition ex_man : list bytes :=
+  [ [1; 1; 99; 2; 2; 3; 5; 4; 0];
+    [2; 6; 3; 7; 4; 20; 7; 0; 5; 100; 1; 97; 1; 98; 7; 0; 4; 90; 1; 99; 1; 100];
+    [3; 9; 5; 0; 2; 65; 66; 6; 0; 5; 6; 0; 4; 7; 1; 8; 150; 1; 1; 97; 1; 100] ].
+Example C04_manifest_replay_nonvacuous :
+  (exists rs, Forall2 (fun b r => decode rp sr_empty b = DOk r) ex_man rs /\
+              replay_result rp [99] rs =
+                SpecOk 6 0 9 20 [mkat 1 8 150 [97] [100]] [mkcp 0 [65; 66]]) /\
+  session_recover rp true [99] ex_man =
+    RecOk (mkss 6 0 9 20 [Some [65; 66]] [[]; [mkat 1 8 150 [97] [100]]]) /\
+  (* the comparer check *)
+  session_recover rp true [100] ex_man = RecFail RFComparerMismatch /\
+  (* a manifest whose records never set next-file-num *)
+  session_recover rp true [99] [[1; 1; 99; 2; 2; 4; 0]] = RecFail RFNoNextFile /\
+  (* a record that is damaged behind its journal number: refused when strict; skipped otherwise — but its journal
+     number stays in effect (observation: same class as the torn records of 061d458, for damage that passes the
+     journal checksum) *)
+  session_recover rp true [99] [[1; 1; 99; 2; 2; 3; 5; 4; 0]; [2; 9; 7]] = RecFail (RFDecode (ECorrupt FAddLevel RShort)) /\
+  session_recover rp false [99] [[1; 1; 99; 2; 2; 3; 5; 4; 0]; [2; 9; 7]] = RecOk (mkss 9 0 5 0 [] []).
+Proof.
+  split.
+  - eexists. split; [repeat constructor; vm_compute; reflexivity|]. vm_compute. reflexivity.
+  - repeat split; vm_compute; reflexivity.
+Qed.
+
+(* the concrete edit codec on a reachable state: flush edit, transaction edit, compaction edit; all hypotheses of
+   C04_crash_safe_bytes_concrete about the manifest hold, and the manifest, written with the real CRC-32C in
+   32-byte blocks and cut inside its last record, recovers to the edits before the cut *)
+Definition ex_ops_man : list pop :=
+  [PWrite 2 true; PRotate; PWrite 3 true; PFlushEdit; PManSync; PDropFrozen; PCompactEdit; PRotate; PFlushEdit;
+   PManSync; PDropFrozen; PTxnCommit 4].
+Example C04_edit_codec_nonvacuous :
+  let s := prun ex_ops_man in
+  length (p_man s) = 5%nat /\ forallb (fun e => match dec_medit rp (enc_medit rp e) with Some e' => true | None => false end) (p_man s) = true /\
+  map (dec_medit rp) (map (enc_medit rp) (p_man s)) = map Some (p_man s) /\
+  recover_bytes jcrc jp_small medit (dec_medit rp) true
+    (crash_bytes jcrc jp_small medit (enc_medit rp) [] (p_man s)
+       (length (jbytes jcrc jp_small medit (enc_medit rp) [] (p_man s)) - 3) []) = firstn 4 (p_man s).
+Proof. vm_compute. repeat split; reflexivity. Qed.
+Example C04_edit_codec_hyp_nonvacuous : Forall medit_ok (p_man (prun ex_ops_man)).
+Proof.
+  assert (E : p_man (prun ex_ops_man) =
+              [{| m_jnum := Some 1; m_seq := Some 0; m_tab := [] |};
+               {| m_jnum := Some 2; m_seq := Some 2; m_tab := [{| b_seq := 1; b_n := 2 |}] |};
+               {| m_jnum := None; m_seq := None; m_tab := [] |};
+               {| m_jnum := Some 3; m_seq := Some 5; m_tab := [{| b_seq := 3; b_n := 3 |}] |};
+               {| m_jnum := None; m_seq := Some 9; m_tab := [{| b_seq := 6; b_n := 4 |}] |}]) by (vm_compute; reflexivity).
+  rewrite E. unfold medit_ok, sr_two63, sr_two64.
+  repeat (constructor; [cbn [m_jnum m_seq m_tab b_seq b_n]; repeat split; intros;
+                        repeat match goal with H : Some _ = Some _ |- _ => injection H as <- | H : None = Some _ |- _ => discriminate end;
+                        try lia; repeat (constructor; [cbn [b_seq b_n]; lia|]); try constructor|]).
+  constructor.
+Qed.
